@@ -2,7 +2,7 @@
    CLOSE.  The property theorems, and nothing else; proofs in Proofs2*.v.
    All statements are over every list of events from the initial state. *)
 From Coq Require Import Lia.
-From VF Require Import Nfs41.Proofs2Examples Nfs41.Proofs2NoPanic.
+From VF Require Import Nfs41.Proofs2Examples Nfs41.Proofs2NoPanic Nfs41.Proofs2Excl.
 Open Scope N_scope.
 
 (* ---- one_owner_one_object (no hypothesis: the repaired code) -------------------------------------
@@ -30,6 +30,21 @@ Theorem one_owner_one_object : forall cfg c0 evs,
        /\ (forall o, In o (c_oofs c) -> NoDup (map lf_owner (of_lofs o))).
 Proof. exact one_owner_one_object_lemma. Qed.
 Print Assumptions one_owner_one_object.
+
+(* ---- exclusion through the NFS layer (only the ranges need to be valid) ----------------------------
+   Every lock table the NFSv4.1 program builds -- any interleaving of LOCK,
+   LOCKU, CLOSE, FREE_STATEID, lease expiry, CREATE_SESSION ..., also in the
+   presence of the shared-lock-owner finding -- is well formed (LockSet.wf)
+   and keeps different lock-owner objects apart: entry-wise ([compatible])
+   and per byte ([excl_bytes]: two different owners never both hold a byte
+   unless both hold it shared).  Together with one_owner_one_object (one
+   protocol-level lock-owner = one object) this is the C20 statement for
+   locks taken through NFSv4.1. *)
+Theorem nfs_lock_tables_exclusive : forall cfg c0 evs, Forall event_valid evs ->
+  forall h, let table := pool_locks h (st_pool (reachable cfg c0 evs)) in
+    LSS.wf table = true /\ LSS.compatible table = true /\ LSS.excl_bytes table.
+Proof. exact tables_exclusive. Qed.
+Print Assumptions nfs_lock_tables_exclusive.
 
 (* ---- lockCount --------------------------------------------------------------------------------------
    Hypotheses (explicit): [Forall event_valid evs]: LOCK / LOCKU carry
